@@ -874,3 +874,269 @@ def _propagate_manager_aliases(fn: ast.AST, suffix: str) -> None:
                 if isinstance(x, ast.Name) and x.id == a and isinstance(x.ctx, ast.Load):
                     x.id = b
             _replace_stmt(fn, st, [])
+
+
+# ---- generator functions consumed by one `for` loop ------------------------------------------------------------------
+
+def _own_jumps(body: list, kinds) -> list:
+    """`break` / `continue` statements in a loop body that belong to that loop (not to a loop nested in the body)"""
+    out = []
+
+    def go(stmts):
+        for s in stmts:
+            if isinstance(s, kinds):
+                out.append(s)
+            if isinstance(s, (ast.For, ast.AsyncFor, ast.While)):
+                go(s.orelse)        # the `else` of an inner loop still belongs to the outer one
+                continue
+            if isinstance(s, (ast.FunctionDef, ast.AsyncFunctionDef, ast.ClassDef)):
+                continue
+            for f in ('body', 'orelse', 'finalbody'):
+                go(getattr(s, f, []) or [])
+            for h in getattr(s, 'handlers', []) or []:
+                go(h.body)
+            for c in getattr(s, 'cases', []) or []:
+                go(c.body)
+    go(body)
+    return out
+
+
+def _generator_plan(gen: ast.FunctionDef):
+    """A generator function that can stand in the place of the `for` loop that consumes it: exactly one `yield <value>`,
+    written as a statement, not inside `try` / `with` (closing the generator early runs nothing), no `return`, no
+    `yield from`, no nested functions / lambdas / comprehensions that bind names, no global / nonlocal, plain parameters.
+    -> (the yield statement, its innermost enclosing loop | None, the yield is the last thing its loop body does,
+        that loop is the last top-level statement of the generator) or None"""
+    if not isinstance(gen, ast.FunctionDef):
+        return None
+    a = gen.args
+    if a.vararg or a.kwarg or a.posonlyargs:
+        return None
+    ys = [n for n in walk_no_nested(gen) if isinstance(n, (ast.Yield, ast.YieldFrom, ast.Await))]
+    if len(ys) != 1 or not isinstance(ys[0], ast.Yield) or ys[0].value is None:
+        return None
+    for n in ast.walk(gen):
+        if n is not gen and isinstance(n, (ast.FunctionDef, ast.AsyncFunctionDef, ast.ClassDef, ast.Lambda, ast.Return, ast.Global,
+                                           ast.Nonlocal, ast.NamedExpr)):
+            return None
+    y = ys[0]
+    st = getattr(y, '_parent', None)
+    if not isinstance(st, ast.Expr):
+        return None
+    loop, tail = None, True
+    node = st
+    while True:
+        p = getattr(node, '_parent', None)
+        if p is None:
+            return None
+        if p is gen:
+            break
+        if isinstance(p, (ast.Try, ast.With, ast.AsyncWith, ast.AsyncFor, ast.Match)) or isinstance(p, ast.match_case):
+            return None
+        if isinstance(p, (ast.For, ast.While)):
+            if not any(node is s for s in p.body):
+                return None          # a yield in a loop's `else`
+            if loop is None:
+                loop = p
+                if p.body[-1] is not node:
+                    tail = False
+        elif isinstance(p, ast.If):
+            lst = p.body if any(node is s for s in p.body) else p.orelse
+            if loop is None and lst[-1] is not node:
+                tail = False
+        else:
+            return None
+        node = p
+    last = loop is not None and real_body(gen.body)[-1] is loop and not loop.orelse
+    return st, loop, (tail if loop is not None else False), last
+
+
+def splice_generator_loops(fn: ast.AST, resolve, max_rounds: int = 4) -> list:
+    """`for T in g(args): BODY` where `g` is a generator function of the program - `resolve(call)` returns (its
+    FunctionDef, a tag, the receiver expression of a method call | None) or None, and vouches that the generator's global
+    names mean the same where `fn` is written - is what the interpreter runs as the generator's body with
+    `T = <value>; BODY` in the place of its one `yield <value>`: the generator is suspended exactly while BODY runs.
+    `continue` in BODY resumes the generator, so it is spliced only when the yield is the last thing the generator's loop
+    body does (then it is that loop's `continue`); `break` in BODY abandons the generator, so it is spliced only when that
+    loop is the generator's last statement; without an enclosing loop in the generator BODY must have neither.
+    `fn` is changed *in place* (its `_parent` links are rehung); -> the tags of the generators spliced.
+    The generator's parameters are replaced by the arguments when these are plain names / attribute chains / constants
+    that neither side rebinds, otherwise bound by an assignment first; a local of the generator that `fn` also uses is
+    renamed `<name>__<generator>`.  `(a, b) = (x, y)` from a tuple target and a tuple yield becomes `a = x; b = y` when no
+    target is read by a later element.  Statements taken from the generator carry `_from_generator = tag`."""
+    import copy
+    done = []
+    for _ in range(max_rounds):
+        hit = None
+        for lp in walk_no_nested(fn):
+            if not isinstance(lp, ast.For) or lp.orelse or not isinstance(lp.iter, ast.Call):
+                continue
+            r = resolve(lp.iter)
+            if r is None:
+                continue
+            gen, tag, receiver = r
+            plan = _generator_plan(gen)
+            if plan is None:
+                continue
+            _, gloop, tail, last = plan
+            if _own_jumps(lp.body, ast.Continue) and not (gloop is not None and tail):
+                continue
+            if _own_jumps(lp.body, ast.Break) and not (gloop is not None and last and not any(
+                    isinstance(p_, (ast.For, ast.While)) for p_ in _ancestors_upto(gloop, gen))):
+                continue
+            hit = (lp, gen, tag, receiver)
+            break
+        if hit is None:
+            break
+        lp, gen, tag, receiver = hit
+        call = lp.iter
+        # bind the parameters
+        params = [p.arg for p in gen.args.args]
+        binding = {}
+        rest = list(params)
+        if receiver is not None and params:
+            binding[params[0]] = receiver
+            rest = params[1:]
+        if any(isinstance(a_, ast.Starred) for a_ in call.args) or any(k.arg is None for k in call.keywords) \
+                or len(call.args) > len(rest):
+            break
+        for p_, a_ in zip(rest, call.args):
+            binding[p_] = a_
+        for k in call.keywords:
+            if k.arg in binding or k.arg not in params + [x.arg for x in gen.args.kwonlyargs]:
+                binding = None
+                break
+            binding[k.arg] = k.value
+        if binding is None:
+            break
+        dflt = dict(zip(params[len(params) - len(gen.args.defaults):], gen.args.defaults))
+        dflt.update({x.arg: d for x, d in zip(gen.args.kwonlyargs, gen.args.kw_defaults) if d is not None})
+        allp = params + [x.arg for x in gen.args.kwonlyargs]
+        for p_ in allp:
+            if p_ not in binding:
+                if p_ not in dflt:
+                    binding = None
+                    break
+                binding[p_] = dflt[p_]
+        if binding is None:
+            break
+        stores = lambda root: {x.id for x in ast.walk(root) if isinstance(x, ast.Name) and isinstance(x.ctx, (ast.Store, ast.Del))}
+        gen_stores = set().union(*[stores(s) for s in gen.body]) if gen.body else set()
+        fn_stores = stores(fn)
+        fn_names = {x.id for x in ast.walk(fn) if isinstance(x, ast.Name)} | {a_.arg for a_ in ast.walk(fn) if isinstance(a_, ast.arg)}
+        suffix = '__' + tag.split('.')[-1]
+        rename = {n: n + suffix for n in gen_stores - set(allp) if n in fn_names}
+        subst, pre = {}, []
+        for p_ in allp:
+            v = binding[p_]
+            root = v
+            while isinstance(root, ast.Attribute):
+                root = root.value
+            stable = isinstance(v, ast.Constant) or (isinstance(root, ast.Name) and root.id not in fn_stores
+                                                      and root.id not in gen_stores and root.id not in rename)
+            if stable and p_ not in gen_stores:
+                subst[p_] = v
+            else:
+                nm = p_ + suffix if (p_ in fn_names or p_ in rename.values()) else p_
+                rename[p_] = nm
+                asg = ast.Assign(targets=[ast.Name(id=nm, ctx=ast.Store())], value=copy.deepcopy(v))
+                pre.append(ast.copy_location(asg, lp))
+        body = [copy.deepcopy(s) for s in real_body(gen.body)]
+        holder = ast.Module(body=body, type_ignores=[])
+        set_parents(holder)
+        ystmt = None
+        for x in list(ast.walk(holder)):
+            if isinstance(x, ast.Expr) and isinstance(x.value, ast.Yield):
+                ystmt = x
+        for x in list(ast.walk(holder)):
+            if isinstance(x, ast.Name):
+                if x.id in rename:
+                    x.id = rename[x.id]
+                elif x.id in subst and isinstance(x.ctx, ast.Load):
+                    new = copy.deepcopy(subst[x.id])
+                    par = x._parent
+                    for f_, val in ast.iter_fields(par):
+                        if val is x:
+                            setattr(par, f_, new)
+                        elif isinstance(val, list):
+                            for i, e_ in enumerate(val):
+                                if e_ is x:
+                                    val[i] = new
+        for s in ast.walk(holder):
+            if isinstance(s, ast.stmt):
+                s._from_generator = tag
+        val = ystmt.value.value
+        tgt = lp.target
+        if isinstance(tgt, ast.Tuple) and isinstance(val, ast.Tuple) and len(tgt.elts) == len(val.elts) \
+                and all(isinstance(t_, ast.Name) for t_ in tgt.elts) and not any(isinstance(e_, ast.Starred) for e_ in val.elts) \
+                and not any(t_.id in {n_.id for e_ in val.elts[i + 1:] for n_ in ast.walk(e_) if isinstance(n_, ast.Name)}
+                            for i, t_ in enumerate(tgt.elts)):
+            binds = [ast.copy_location(ast.Assign(targets=[t_], value=e_), ystmt) for t_, e_ in zip(tgt.elts, val.elts)]
+        else:
+            binds = [ast.copy_location(ast.Assign(targets=[tgt], value=val), ystmt)]
+        for b in binds:
+            b._from_generator = tag
+        ypar = ystmt._parent
+        for f_ in ('body', 'orelse'):
+            lst = getattr(ypar, f_, None)
+            if isinstance(lst, list) and any(s is ystmt for s in lst):
+                i = next(i for i, s in enumerate(lst) if s is ystmt)
+                lst[i:i + 1] = binds + lp.body
+        _replace_stmt(fn, lp, pre + holder.body)
+        ast.fix_missing_locations(fn)
+        set_parents(fn)
+        done.append(tag)
+    return done
+
+
+def _ancestors_upto(n: ast.AST, stop: ast.AST):
+    p = getattr(n, '_parent', None)
+    while p is not None and p is not stop:
+        yield p
+        p = getattr(p, '_parent', None)
+
+
+def accumulator_as_generator(fn: ast.FunctionDef):
+    """`def f(..): out = []; ...; out.append(E); ...; return out` - a function that returns the list of the values it
+    appends, the list being used for nothing else - as the generator `def f(..): ...; yield E; ...` (a copy; None when `fn`
+    is not of that shape).  Consumed by `for x in f(..)`, the two produce the same values in the same order; they differ
+    in *when* the statements of f run relative to the loop body (all before it / interleaved), which is the same thing
+    when f only computes (it stores to no attribute or subscript, deletes nothing, and declares nothing global)."""
+    import copy
+    if not isinstance(fn, ast.FunctionDef) or any(isinstance(n, (ast.Yield, ast.YieldFrom, ast.Await)) for n in walk_no_nested(fn)):
+        return None
+    body = real_body(fn.body)
+    rets = [n for n in walk_no_nested(fn) if isinstance(n, ast.Return)]
+    if len(rets) != 1 or not body or body[-1] is not rets[0] or not isinstance(rets[0].value, ast.Name):
+        return None
+    out = rets[0].value.id
+    for n in ast.walk(fn):
+        if isinstance(n, (ast.Global, ast.Nonlocal, ast.Delete)):
+            return None
+        if isinstance(n, (ast.Attribute, ast.Subscript)) and isinstance(n.ctx, (ast.Store, ast.Del)):
+            return None
+    inits = [s for s in body if isinstance(s, (ast.Assign, ast.AnnAssign)) and s.value is not None
+             and [t.id for t in (s.targets if isinstance(s, ast.Assign) else [s.target]) if isinstance(t, ast.Name)] == [out]]
+    if len(inits) != 1 or not ((isinstance(inits[0].value, ast.List) and not inits[0].value.elts) or
+                               (isinstance(inits[0].value, ast.Call) and call_name(inits[0].value) == 'list'
+                                and not inits[0].value.args and not inits[0].value.keywords)):
+        return None
+    uses = [n for n in ast.walk(fn) if isinstance(n, ast.Name) and n.id == out]
+    apps = [n for n in ast.walk(fn) if isinstance(n, ast.Expr) and isinstance(n.value, ast.Call)
+            and isinstance(n.value.func, ast.Attribute) and n.value.func.attr == 'append'
+            and isinstance(n.value.func.value, ast.Name) and n.value.func.value.id == out
+            and len(n.value.args) == 1 and not n.value.keywords and not isinstance(n.value.args[0], ast.Starred)]
+    if len(apps) != 1 or len(uses) != 3:        # the initialisation, the append, the return
+        return None
+    idx = {id(n): i for i, n in enumerate(ast.walk(fn))}
+    new = copy.deepcopy(fn)
+    nodes = list(ast.walk(new))
+    set_parents(new)
+    n_init, n_app, n_ret = nodes[idx[id(inits[0])]], nodes[idx[id(apps[0])]], nodes[idx[id(rets[0])]]
+    n_app.value = ast.copy_location(ast.Yield(value=n_app.value.args[0]), n_app.value)
+    new.body = [s for s in new.body if s is not n_init and s is not n_ret]
+    if not new.body:
+        return None
+    ast.fix_missing_locations(new)
+    set_parents(new)
+    return new
